@@ -92,7 +92,7 @@ def check(ctx):
     n_norm += len(cn)
     ctx.ob("NORM.canonical", asg, "_assign: key = canonical_name(keys[0], d)", len(cn) == 1)
     if cn:
-        uses = [n for n in walk_no_nested(asg) if isinstance(n, ast.Subscript) and unparse(n.value) == "d"]
+        uses = [n for n in walk_no_nested(asg) if isinstance(n, ast.Subscript) and eqv(n.value, "d")]
         bad = [u for u in uses if unparse(u.slice) != "key" or not dominates(asg, cn[0][0], u)]
         ctx.ob("NORM.canonical.dominates-uses", asg, f"_assign: d is only indexed by the canonical key ({len(uses)} uses)", not bad and bool(uses), "" if not bad else f"lines {[u.lineno for u in bad]}")
     # the rollback path is made of canonical keys (it is replayed against the config by __exit__)
@@ -106,7 +106,7 @@ def check(ctx):
     ctx.ob("NORM.canonical.definition", cnf, "canonical_name: exact spelling, else the -/_ swapped spelling if present, else k", ok)
 
     # ---------------- DOM record
-    stores = [n for n in walk_no_nested(asg) if isinstance(n, ast.Assign) and any(isinstance(t, ast.Subscript) and unparse(t.value) == "d" for t in n.targets)]
+    stores = [n for n in walk_no_nested(asg) if isinstance(n, ast.Assign) and any(isinstance(t, ast.Subscript) and eqv(t.value, "d") for t in n.targets)]
     ctx.count("assign_store_sites", len(stores))
     ctx.floor("assign_store_sites", 2)
     g = cfg_of(asg)
@@ -127,11 +127,11 @@ def check(ctx):
             ctx.ob("TAB.ops.record-shape", n, "record entry is (op, path, old value)", False, unparse(t))
     tags = set()
     for n, t, st_ in entries:
-        ok = len(t.elts) == 3 and unparse(t.elts[1]) == "path"
+        ok = len(t.elts) == 3 and eqv(t.elts[1], "path")
         if len(t.elts) == 3:
             tags.add(const(t.elts[0]))
         ctx.ob("TAB.ops.record-shape", st_, f"record entry {unparse(t)} is (op, path, old value)", ok)
-    rec_false = {nd.idx for nd in g.nodes if nd.kind == "branch" and nd.label[0] == "if" and isinstance(nd.label[1], ast.AST) and unparse(nd.label[1]) == "record" and nd.label[2] is False}
+    rec_false = {nd.idx for nd in g.nodes if nd.kind == "branch" and nd.label[0] == "if" and isinstance(nd.label[1], ast.AST) and eqv(nd.label[1], "record") and nd.label[2] is False}
     app_nodes = {g.node_of(n) for n, _ in appends}
     for st in stores:
         before = g.all_paths_pass(g.entry, g.node_of(st), app_nodes | rec_false)
@@ -165,7 +165,7 @@ def check(ctx):
         tag = const(t.elts[0]) if t.elts else None
         facts = inline_facts(asg, st_)
         if tag == "replace":
-            ok = has_fact(facts, "key in d", True) is not None and unparse(t.elts[2]) == "d[key]" and all(not (g.dominates(g.node_of(s_), g.node_of(st_)) and g.node_of(s_) != g.node_of(st_)) for s_ in stores)
+            ok = has_fact(facts, "key in d", True) is not None and eqv(t.elts[2], "d[key]") and all(not (g.dominates(g.node_of(s_), g.node_of(st_)) and g.node_of(s_) != g.node_of(st_)) for s_ in stores)
             ctx.ob("DOM.record.replace-old-value", st_, "('replace', path, d[key]) built before the store, only when key in d", ok)
         elif tag == "insert":
             ok = has_fact(facts, "key in d", False) is not None
@@ -179,14 +179,14 @@ def check(ctx):
             ok = has_fact(facts, "key in d", False) is not None and g.all_paths_pass(g.entry, g.node_of(n), ins | rec_false)
         ctx.ob("DOM.record.off-after-insert", n, "record = False only after the insert of the new ancestor was recorded", ok)
     rec_calls = [c for c in calls(asg, "_assign")]
-    ok = bool(rec_calls) and all(unparse(kwarg(c, "record")) == "record" and unparse(c.args[0]) == "keys[1:]" and unparse(c.args[2]) == "d[key]" and unparse(c.args[3]) == "path" for c in rec_calls)
+    ok = bool(rec_calls) and all(unparse(kwarg(c, "record")) == "record" and eqv(c.args[0], "keys[1:]") and eqv(c.args[2], "d[key]") and eqv(c.args[3], "path") for c in rec_calls)
     ctx.ob("DOM.record.recursion", asg, "self._assign(keys[1:], value, d[key], path, record=record)", ok)
 
     # ---------------- TAB ops
     ex = mod.func("set.__exit__")
     disp = set()
     for n in ast.walk(ex):
-        if isinstance(n, ast.Compare) and unparse(n.left) == "op" and len(n.comparators) == 1 and isinstance(const(n.comparators[0]), str):
+        if isinstance(n, ast.Compare) and eqv(n.left, "op") and len(n.comparators) == 1 and isinstance(const(n.comparators[0]), str):
             disp.add(const(n.comparators[0]))
     # an if/else dispatch handles one further tag implicitly
     handled = set(disp)
@@ -194,9 +194,9 @@ def check(ctx):
     ok = tags == {"insert", "replace"} and (handled == tags or (len(tags - handled) == 1 and bool(implicit)))
     ctx.ob("TAB.ops.tags", ex, f"tags written {sorted(t for t in tags if t)} == tags dispatched {sorted(handled)} (+ else)", ok)
     loops = [l for l in walk_no_nested(ex) if isinstance(l, ast.For)]
-    ok = bool(loops) and Pat("reversed(self._record)").match(loops[0].iter) is not None and unparse(loops[0].target) == "(op, path, value)"
+    ok = bool(loops) and Pat("reversed(self._record)").match(loops[0].iter) is not None and eqv(loops[0].target, "(op, path, value)")
     ctx.ob("TAB.ops.reverse-order", ex, "for op, path, value in reversed(self._record)", ok)
-    rep = [n for n in ast.walk(ex) if isinstance(n, ast.If) and unparse(n.test) == "op == 'replace'"]
+    rep = [n for n in ast.walk(ex) if isinstance(n, ast.If) and eqv(n.test, "op == 'replace'")]
     ok = False
     if rep:
         body = ast.Module(body=rep[0].body, type_ignores=[])
@@ -226,11 +226,11 @@ def check(ctx):
         ctx.ob("SCOPE.transactional-init", c, "set.__init__: a failing _assign rolls back the earlier ones", ok, detail)
     ok = bool(find("self._record = []", init)) and all(dominates(init, find("self._record = []", init)[0][0], c) for c in acalls)
     ctx.ob("SCOPE.record-reset", init, "self._record = [] before any assignment", ok)
-    with_lock = [w for w in walk_no_nested(init) if isinstance(w, ast.With) and any(unparse(i.context_expr) == "lock" for i in w.items)]
+    with_lock = [w for w in walk_no_nested(init) if isinstance(w, ast.With) and any(eqv(i.context_expr, "lock") for i in w.items)]
     ok = bool(with_lock) and all(in_subtree(c, with_lock[0]) for c in acalls)
     ctx.ob("SCOPE.lock", init, "assignments happen under `with lock`", ok)
     for c in acalls:
-        ok = unparse(c.args[2]) == "config" and Pat("key.split('.')").match(c.args[0]) is not None
+        ok = eqv(c.args[2], "config") and Pat("key.split('.')").match(c.args[0]) is not None
         ctx.ob("SCOPE.assign-args", c, "self._assign(key.split('.'), value, config)", ok)
 
     # ---------------- CODEC
@@ -248,11 +248,11 @@ def check(ctx):
     up = mod.func("update")
     prios = set()
     for n in ast.walk(up):
-        if isinstance(n, ast.Compare) and unparse(n.left) == "priority" and isinstance(const(n.comparators[0]), str):
+        if isinstance(n, ast.Compare) and eqv(n.left, "priority") and isinstance(const(n.comparators[0]), str):
             prios.add(const(n.comparators[0]))
     ok = prios == {"new", "new-defaults"}
     ctx.ob("ALG.update.priorities", up, f"update dispatches on priorities {sorted(prios)} ('old' = otherwise)", ok)
-    st = [n for n in walk_no_nested(up) if isinstance(n, ast.Assign) and unparse(n.targets[0]) == "old[k]" and unparse(n.value) == "v"]
+    st = [n for n in walk_no_nested(up) if isinstance(n, ast.Assign) and eqv(n.targets[0], "old[k]") and eqv(n.value, "v")]
     ok = False
     if st:
         facts = inline_facts(up, st[0])
@@ -261,10 +261,10 @@ def check(ctx):
         ok = ok and any("defaults[k] == old[k]" in c and "priority == 'new-defaults'" in c and "k in defaults" in c for c in conds)
     ctx.ob("ALG.update.leaf", up, "old[k] = v iff priority=='new' or k not in old or (new-defaults and old[k] is still the default)", ok)
     rc = [c for c in calls(up, "update")]
-    ok = bool(rc) and all(unparse(c.args[0]) == "old[k]" and unparse(c.args[1]) == "v" and unparse(kwarg(c, "priority")) == "priority" for c in rc)
+    ok = bool(rc) and all(eqv(c.args[0], "old[k]") and eqv(c.args[1], "v") and unparse(kwarg(c, "priority")) == "priority" for c in rc)
     ctx.ob("ALG.update.recursion", up, "nested mappings recurse with the same priority", ok)
     mg = mod.func("merge")
-    ok = bool(find("result: dict = {}", mg) or find("result = {}", mg)) and any(isinstance(l, ast.For) and unparse(l.iter) == "dicts" and bool(find("update(result, d)", l)) for l in walk_no_nested(mg)) and (all(unparse(r.value) == "result" for r in returns(mg)) and bool(returns(mg)))
+    ok = bool(find("result: dict = {}", mg) or find("result = {}", mg)) and any(isinstance(l, ast.For) and eqv(l.iter, "dicts") and bool(find("update(result, d)", l)) for l in walk_no_nested(mg)) and (all(eqv(r.value, "result") for r in returns(mg)) and bool(returns(mg)))
     ctx.ob("ALG.merge", mg, "merge folds update(result, d) left to right into a fresh dict", ok)
 
 
